@@ -177,6 +177,17 @@ func LoadEngine(repo string) (*Engine, error) {
 			e.specs[p.Name] = sf
 			for gi := range sf.Ghosts {
 				g := &sf.Ghosts[gi]
+				// a ghost field must not reuse the name of a real field of its owner: the two would be conflated in
+				// every predicate (found the hard way: avltree's ghost interval end "b" vs. the balance factor "b")
+				if obj := p.Types.Scope().Lookup(g.Owner); obj != nil {
+					if st, ok := obj.Type().Underlying().(*types.Struct); ok {
+						for fi := 0; fi < st.NumFields(); fi++ {
+							if st.Field(fi).Name() == g.Name {
+								return nil, fmt.Errorf("%s: ghost field %s.%s has the name of a real field", p.CompiledGoFiles[i], g.Owner, g.Name)
+							}
+						}
+					}
+				}
 				e.ghosts[p.PkgPath+"."+g.Owner+"."+g.Name] = g
 			}
 		}
